@@ -262,9 +262,23 @@ def family_deref(rnd, tier):
         "nested-link-in-linked-dir": {"d": {"x": "F1", "lx": ("link", "x")}, "ld": ("link", "d")},
         "link-to-fifo": {"p": ("fifo",), "lp": ("link", "p")},
     }
+    def chain(n, target):
+        sh = {"l1": ("link", target)}
+        for i in range(2, n + 1):
+            sh["l%d" % i] = ("link", "l%d" % (i - 1))
+        return sh
+    shapes["chain20-file"] = dict(chain(20, "a"), a="F1")
+    shapes["chain40-file"] = dict(chain(40, "a"), a="F1")          # the longest chain the OS resolves
+    shapes["chain41-file"] = dict(chain(41, "a"), a="F1")          # one more: ELOOP, the run must fail
+    shapes["chain40-dir"] = dict(chain(40, "d"), d={"x": "F2"})
     for name, sh in shapes.items():
         for dn, dst in (("absent", []), ("dir", [E("d", "dir")])):
-            out.append(SC("deref-%s-%s" % (name, dn), tree("s", sh) + outside + dst, ["s"], "d", L=True, cls="deref"))
+            sc = SC("deref-%s-%s" % (name, dn), tree("s", sh) + outside + dst, ["s"], "d", L=True, cls="deref")
+            if len(sh) > 12:
+                sc["nomodel"] = True      # 40 siblings: the exhaustive exploration of walk orders is exponential in the fan-out
+                if dn == "dir":
+                    continue
+            out.append(sc)
     out.append(SC("deref-rootlink", tree("real", {"a": "F1", "sd": {"b": "F2"}}) + [E("ln", "link", "real"), E("d", "dir")], ["ln"], "d", L=True, cls="deref"))
     out.append(SC("deref-single-link", [E("f", "file", "F1"), E("l", "link", "f")], ["l"], "d", r=False, L=True, cls="deref"))
     out.append(SC("deref-single-dangling", [E("l", "link", "nowhere"), E("d", "dir")], ["l"], "d", r=False, L=True, cls="deref"))
